@@ -1176,6 +1176,13 @@ _FLOAT = {
 }
 
 
+def _hashable(it, x):
+    from .values import unhashable_dataclass
+    if unhashable_dataclass(x):
+        raise it.exc("TypeError", f"unhashable type: '{x.cls.name}'")
+    return x
+
+
 def _set_union(it, s, *others):
     out = SetVal(s.items)
     for o in others:
@@ -1185,7 +1192,7 @@ def _set_union(it, s, *others):
 
 
 _SET = {
-    "add": lambda it, s, x: s.add(x),
+    "add": lambda it, s, x: s.add(_hashable(it, x)),
     "discard": lambda it, s, x: s.discard(x),
     "remove": lambda it, s, x: s.discard(x) if x in s else (_ for _ in ()).throw(it.exc("KeyError", x)),
     "union": _set_union,
